@@ -1,5 +1,6 @@
 ---- MODULE MC_q_nxm ----
 EXTENDS MCOFWire
 TheCases == NXEntries(0) \cup NXRegs(0)
+TheRCases == {}
 TheAround == AroundOne
 ====
